@@ -47,6 +47,24 @@ func run() (status int) {
 			status = 2
 		}
 	}()
+	if os.Getenv("SHOVELCHECK_ANCHORSIGS") != "" {
+		// generator: prints anchors_sig.go for the anchors listed (one "pkg|name" per line) in the file named
+		w := Load(*repo, false)
+		b, _ := os.ReadFile(os.Getenv("SHOVELCHECK_ANCHORSIGS"))
+		fmt.Println("// Code generated from /repo by SHOVELCHECK_ANCHORSIGS; DO NOT EDIT.\n\npackage main\n")
+		fmt.Println("// anchorSigs: receiver and signature (without parameter names) of every anchor function on the reference\n// tree: used only to find an anchor again after it was renamed (world.go fnBySignature).\nvar anchorSigs = map[string]string{")
+		for _, l := range strings.Split(strings.TrimSpace(string(b)), "\n") {
+			parts := strings.SplitN(l, "|", 2)
+			if len(parts) != 2 {
+				continue
+			}
+			if f := w.FnOpt(parts[0], parts[1]); f != nil {
+				fmt.Printf("\t%q: %q,\n", l, namelessSig(f))
+			}
+		}
+		fmt.Println("}")
+		return 0
+	}
 	if *listAll {
 		var ids []string
 		for id := range registry {
